@@ -451,6 +451,11 @@ func toGenericRunnable[I, O any](cr *composableRunnable, ctxWrapper func(ctx con
 			return output, err
 		}
 
+		if out == nil {
+			// a nil interface value is a legal final value when O is an interface type
+			return output, nil
+		}
+
 		return out.(O), err
 	}
 
